@@ -439,6 +439,10 @@ Definition disc_ufunc (NP : npsem) (st : store) (ds : dspace) (nout : nat) (m : 
                                 mkTS (ts_shape rsp) (ts_dt rsp) (WConst (c1 * c2)) (ts_exp rsp)
                             | _, _ => rsp
                             end in
+                          (* a weighting is refused for the non-numeric dtype bool *)
+                          if (match ts_w (ds_ts d1), ts_w (ds_ts d2), ts_dt rsp with
+                              | WConst _, WConst _, DBool => true | _, _, _ => false end)
+                          then Err EValue else
                           match mk_dspace axes ts with
                           | Ok rs' => Ok ([OpDisc rs' id], st')
                           | Err e => Err e
